@@ -174,9 +174,12 @@ def bounded(tier, seed):
                 viol.append({"clause": "paired_within_paragraph", "input": {"text": d, "options": o, **P.doc_features(d)}, "got": on[:300], "want": off[:300]})
             if D.literal_spans(off) != D.literal_spans(on):
                 viol.append({"clause": "doc_literals_unchanged", "input": {"text": d, "options": o, **P.doc_features(d)}, "got": on[:300]})
+    # coalesce_raw_text_nodes (runs before either typography rewrite) against its specification on every short child sequence
+    from . import funcspecs as FS
+    evals += FS.coalesce_spec_sweep(viol, 6 if tier == "quick" else 7)
     return {"evaluations": evals, "distinct_nontrivial": len(distinct), "violations": viol,
             "samples": [{"text": "\"a\" it's"}, {"text": docs[-5]}],
-            "rule": "smart_quotes on every string of length <= %d over the 13-symbol alphabet %r: Q(input, output) and template tags "
+            "rule": "(also: coalesce_raw_text_nodes == 'each maximal run RawText (soft-break RawText)* becomes its first node with the texts joined by newline, every other node kept' on every child sequence of <= 6 (thorough 7) nodes over {text, soft break, hard break, code span, emphasis}) smart_quotes on every string of length <= %d over the 13-symbol alphabet %r: Q(input, output) and template tags "
                     "verbatim; documents of the document space + 20 targeted ones (quotes split over paragraphs, list items, quote blocks, table cells, "
                     "multi-block footnote definitions) x 2 option sets: output with the option on is "
                     "Q-related to the output with it off (same length, same line breaks), every converted opening quote has its converted partner in the same paragraph, and has the same literal spans; distinct = "
